@@ -750,6 +750,17 @@ def runInputsJ {N : Nat} (c0 : RQJ.Config) (sent : Std.HashSet String) (i : Fin 
     if kind == "j-props" ∨ kind == "j-recv-propFwd" then
       for e in post.n.log.drop x.n.log.length do
         kinds := kinds ++ [if RSJ.isConfData e.data then "j-gate/conf-change-appended" else "j-gate/normal-or-refused"]
+    match mi with
+    | .prop vs =>
+      if x.n.role = .leader ∧ RHJ.hasProg (RHJ.cfgOf c0 x) i then
+        match vs.filterMap RSJ.ccOf with
+        | cc :: _ =>
+          kinds := kinds ++ [match RSJ.refusal x.applied x.pend (RQJ.joint (RHJ.cfgOf c0 x)) cc with
+            | none => "j-gate/first/accepted"
+            | some r => if r.startsWith "possible" then "j-gate/first/refused-pending" else if r.startsWith "must" then "j-gate/first/refused-joint"
+                        else "j-gate/first/refused-not-joint"]
+        | [] => pure ()
+    | _ => pure ()
     if (kind == "j-hup") ∧ x.n.term < post.n.term ∧ RQJ.joint (RHJ.cfgOf c0 x) then kinds := kinds ++ ["j-hup+campaigns-joint"]
     if (kind == "j-selfAck" ∨ kind == "j-recv-appResp") ∧ x.n.commit < post.n.commit ∧ RQJ.joint (RHJ.cfgOf c0 x) then kinds := kinds ++ ["j-commit-by-joint-quorum"]
     if kind == "j-recv-voteResp" ∧ x.n.role = .candidate ∧ post.n.role = .leader ∧ RQJ.joint (RHJ.cfgOf c0 x) then kinds := kinds ++ ["j-won-by-joint-quorum"]
